@@ -1,5 +1,12 @@
 #!/usr/bin/env python3
-"""C12 (a) — extract the commit-last structure of every load function from the clang AST.
+"""C12 (a) — helper library of tools/translate_flow.py (round 3).
+
+Until round 2 this file was the translator of the flat commit-last table (`Vita.C12.Stmt`: fail / write / sub);
+the table now carries the data-flow and is produced by tools/translate_flow.py, which reuses the classification
+helpers below (`Fn.strip`, `callee_name`, `is_const_view`, the kind sets, `template_args`, `has_body`).  The
+description that follows is the one of the old abstraction, kept for the rules it documents.
+
+Extract the commit-last structure of every load function from the clang AST.
 
 For each load / load_impl named by the property the body is abstracted to a term of
 `Vita.C12.Stmt` (lean/Vita/C12/CommitLast.lean):
@@ -28,7 +35,6 @@ import sys
 sys.path.insert(0, os.path.dirname(os.path.abspath(__file__)))
 from cxx2lean import Refuse, ast_dump, kids, qtype  # noqa: E402
 
-TU = "loads_tu.cc"
 
 # (key, dump filter, how to find the definition)
 #   ("method", cls, name)            top-level out-of-line CXXMethodDecl `name` whose parent is `cls`
@@ -406,48 +412,3 @@ def find_def(docs, how):
             return r
     raise Refuse("definition of %s<%s>::%s not found (is it instantiated in tools/tu/%s?)"
                  % (tmpl, ", ".join(args), name, TU))
-
-
-def translate():
-    index_of = {k: i for i, (k, _, _) in enumerate(TARGETS)}
-    filters = sorted({f for _, f, _ in TARGETS})
-    with cf.ThreadPoolExecutor(8) as ex:
-        dumps = dict(zip(filters, ex.map(lambda f: ast_dump(TU, f), filters)))
-    out = []
-    for key, filt, how in TARGETS:
-        d = find_def(dumps[filt], how)
-        body = [c for c in kids(d) if c.get("kind") == "CompoundStmt"][0]
-        fn = Fn(key, index_of)
-        out.append((key, fn.stmt(body)))
-    return out
-
-
-def render(entries):
-    lines = ["/- GENERATED by tools/translate_loads.py from the clang AST of the load functions of the",
-             "   current working tree — do not edit.  One entry per function, in the order of `names`. -/",
-             "import Vita.C12.CommitLast",
-             "namespace Vita.C12.Gen",
-             "open Vita.C12",
-             "",
-             "def names : List String := ["]
-    lines += ["  \"%s\"%s" % (k, "," if i + 1 < len(entries) else "") for i, (k, _) in enumerate(entries)]
-    lines += ["]", "", "def table : List Stmt := ["]
-    for i, (k, t) in enumerate(entries):
-        lines.append("  -- %d: %s" % (i, k))
-        lines.append("  %s%s" % (lean(t), "," if i + 1 < len(entries) else ""))
-    lines += ["]", "", "end Vita.C12.Gen", ""]
-    return "\n".join(lines)
-
-
-def emit(path):
-    entries = translate()
-    txt = render(entries)
-    old = open(path).read() if os.path.exists(path) else None
-    if old != txt:
-        with open(path, "w") as f:
-            f.write(txt)
-    return [k for k, _ in entries], old is not None and old != txt
-
-
-if __name__ == "__main__":
-    print(render(translate()))
